@@ -30,6 +30,6 @@ PROP = {
             "decision kind, protocol, ClientID present/decisive, zoned, installation path).",
     "assumptions": ["dnsproxy calls HandleBefore before any processing and drops/answers as its handleBefore documents "
                     "(exercised for real in TestVFC03Wire)"],
-    "require_classes": {"thorough": ["want:excluded:client", "want:excluded:host", "clientid_decides", "via:http_set",
+    "require_classes": {"thorough": ["want:excluded:client", "want:excluded:host", "clientid_decides", "via:http_set", "client_seen_before_lists_changed",
                                       "wire:excluded:udp", "wire:excluded:tcp", "wire:admitted:udp"]},
 }
